@@ -221,7 +221,7 @@ func TestC02_Repeat(t *testing.T) {
 	if err := haveBins(); err != nil {
 		t.Fatalf("INFRA: %v", err)
 	}
-	ev := NewEv(t, "C02", "repeat", "k fresh builds (k = 3 quick, 8 thorough) of the same configuration in separate processes, for --full configurations of every distribution (and normal ones in thorough); oracle: identical manifests. Go randomises map iteration per process, so each repetition is an independent draw of the iteration orders; a two-way order dependence escapes k runs with probability 2^(1-k). Non-trivial: every configuration; distinct by configuration")
+	ev := NewEv(t, "C02", "repeat", "k fresh builds (k = 3 quick, 8 thorough) of the same configuration in separate processes, for --full configurations of every distribution (and normal ones in thorough); the last one in a build directory on another kind of filesystem (tmpfs) when there is one; oracle: identical manifests. Go randomises map iteration per process, so each repetition is an independent draw of the iteration orders; a two-way order dependence escapes k runs with probability 2^(1-k). Non-trivial: every configuration; distinct by configuration")
 	k := 3
 	var cfgs []Config
 	for i, d := range allDists {
@@ -246,7 +246,13 @@ func TestC02_Repeat(t *testing.T) {
 		c := cfgs[i]
 		var first Manifest
 		for r := 0; r < k; r++ {
-			b, err := BuildShipped(c, false)
+			// the last repetition sits on another kind of filesystem, where a directory is listed
+			// in another raw order: the output must not depend on where the build directory is
+			base := refScratch()
+			if o := otherFilesystem(); r == k-1 && o != "" {
+				base = o
+			}
+			b, err := BuildFromIn(base, repoRoot(), c, false)
 			if err != nil {
 				b.Clean()
 				mu.Lock()
